@@ -73,7 +73,7 @@ impl<'a> Arbitrary<'a> for NDOptionValue {
             },
             5 => Ok(NDOptionValue::Pref64((
                 Duration::from_secs(u.int_in_range(0..=2_u64.pow(13) - 1)? & !7),
-                u.int_in_range(0..=5)? * 8 + 32,
+                [32, 40, 48, 56, 64, 96][u.int_in_range(0..=5_usize)?],
                 <[u8; 128 / 8]>::try_from(
                     [&<[u8; 96 / 8]>::arbitrary(u)?, &[0_u8; (128 - 96) / 8][..]].concat(),
                 )
@@ -212,11 +212,19 @@ fn parse_nd_rtr_options(buf: &mut Buffer) -> Result<NDOptions, Error> {
                 use std::convert::{TryFrom as _, TryInto as _};
                 let scaled_lifetime_plc = u16::from_be_bytes(value[0..=1].try_into().unwrap());
                 let lifetime = Duration::from_secs((scaled_lifetime_plc & !7).into());
-                let prefixlen = (scaled_lifetime_plc & 0x07) * 8 + 32;
+                let prefixlen = match scaled_lifetime_plc & 0x07 {
+                    0 => 96,
+                    1 => 64,
+                    2 => 56,
+                    3 => 48,
+                    4 => 40,
+                    5 => 32,
+                    _ => return Err(Error::InvalidPacket),
+                };
                 let ip_octets =
                     <[u8; 16]>::try_from([&value[2..], &[0, 0, 0, 0]].concat()).unwrap();
                 let prefix = std::net::Ipv6Addr::from(ip_octets);
-                options.add_option(NDOptionValue::Pref64((lifetime, prefixlen as u8, prefix)));
+                options.add_option(NDOptionValue::Pref64((lifetime, prefixlen, prefix)));
             }
             (MTU, value) => {
                 if value.len() != 8 - 2 {
@@ -457,8 +465,18 @@ fn serialise_router_advertisement(a: &RtrAdvertisement) -> Vec<u8> {
             NDOptionValue::Pref64((lifetime, prefixlen, prefix)) => {
                 v.serialise(PREF64.0);
                 v.serialise(2_u8);
-                let scaled_lifetime = (lifetime.as_secs() / 8) as u16;
-                let plc = ((prefixlen - 32) / 8) as u16;
+                /* 13 bits of lifetime in units of 8 seconds */
+                let scaled_lifetime = std::cmp::min(lifetime.as_secs() / 8, 0x1fff) as u16;
+                /* RFC8781 Section 4: Prefix Length Code */
+                let plc: u16 = match prefixlen {
+                    96 => 0,
+                    64 => 1,
+                    56 => 2,
+                    48 => 3,
+                    40 => 4,
+                    32 => 5,
+                    _ => panic!("Invalid PREF64 prefix length {}", prefixlen),
+                };
                 v.serialise((scaled_lifetime << 3) | plc);
                 for i in 0..12 {
                     v.serialise(prefix.octets()[i])
